@@ -118,6 +118,10 @@ def catalogue():
     add("head", "indexing", lambda a: a.head({_lead(a): 1}), _need_lead)
     add("tail", "indexing", lambda a: a.tail({_lead(a): 1}), _need_lead)
     add("thin", "indexing", lambda a: a.thin({_lead(a): 2}), _need_lead)
+    add("head_zero", "indexing", lambda a: a.head({_lead(a): 0}), _need_lead)
+    add("tail_zero", "indexing", lambda a: a.tail({_lead(a): 0}), _need_lead)
+    add("tail_all", "indexing", lambda a: a.tail({_lead(a): a.sizes[_lead(a)]}), _need_lead)
+    add("thin_one", "indexing", lambda a: a.thin({_lead(a): 1}), _need_lead)
     add("loc", "indexing", lambda a: a.loc[{"t": float(a["t"].values[-1])}], lambda a: "t" in a.dims and "t" in a.coords)
     # reductions along non-grid dimensions
     for r in ("sum", "mean", "max", "min", "std", "prod", "median", "var"):
@@ -492,6 +496,19 @@ def run_case(ctx, case):
             except Exception as e:
                 okg = False
             ctx.check("grid_attached", okg, dict(sig, expect="equal but distinct grid"), dict(det, same_object=r.uxgrid is grid_now, has_grid=r.uxgrid is not None))
+            if okg:
+                # ... and an independent one: a value written into the copy's grid does not appear in the original's
+                try:
+                    for vn in ("node_lon", "face_node_connectivity"):
+                        theirs, ours = getattr(r.uxgrid, vn).values, np.array(getattr(grid_now, vn).values)
+                        if isinstance(theirs, np.ndarray) and theirs.flags.writeable and theirs.size:
+                            old = theirs.flat[0]
+                            theirs.flat[0] = old + 1
+                            same = np.array_equal(np.asarray(getattr(grid_now, vn).values), ours)
+                            theirs.flat[0] = old
+                            ctx.check("grid_attached", bool(same), dict(sig, expect="deep copy's grid is independent", var=vn), dict(det))
+                except Exception as e:
+                    ctx.observe("copy_independence_probe_failed:" + core.exc_sig(e))
             if r.uxgrid is not None:
                 grid_now = r.uxgrid
         else:
